@@ -288,7 +288,7 @@ def op_table():
         nm = names[kind % 3]
         mod = P.mods["breadthfirst"] if nm == "bfs" else P.mods["depthfirst"]
         attrib = ["tag", "missing", "uid"][a % 3]
-        val = [0, 1, 1.0, "x"][vv % 4]
+        val = [0, 1, 1.0, None, "x"][vv % 5]
         try:
             order = reference_listing(P, {"bfs": "bft", "dfs_recursive": "dft_recursive", "dfs_iterative": "dft_iterative"}[nm],
                                       uni, start, 0, 2, None)
@@ -302,6 +302,30 @@ def op_table():
         got = getattr(mod, nm)(uni, start, attrib, val)
         if got is not want:
             raise PropertyViolation(f"C08: {nm}({attrib}=={val!r}) returned {fmt(P, [got])}, the first match of the listing is {fmt(P, [want])}")
+
+    @reg("scenario", 1, "traverse")
+    def _(P, seed):
+        """a pseudo-random small multigraph (parallel / anti-parallel edges, self-loops, mixed classes, a vertex outside the
+        universe) followed by every traversal and search, each compared with the canonical machine"""
+        rng = random.Random(seed * 7919 + 13)
+        names = sorted(P.classes)
+        verts = P.V + [P.U[1]]
+        for _ in range(rng.randint(1, 7)):
+            a, b = rng.choice(verts), rng.choice(verts)
+            P.L.append(P.classes[rng.choice(names)](a, b))
+        use_uni = rng.random() < 0.6
+        if use_uni:
+            for v in verts:
+                if rng.random() < 0.75:
+                    P.U[0].add_vertex(v)
+        for v in verts:
+            v.tag = rng.randint(0, 1)
+        tr, se = OPS["traverse"][0], OPS["search"][0]
+        for kind in range(3):
+            for _ in range(2):
+                i = rng.randint(0, 3)
+                tr(P, kind, i, 0 if use_uni else -1, rng.randint(0, 2), rng.randint(0, 2), rng.randint(0, 3), rng.randint(0, 3))
+                se(P, kind, i, 0 if use_uni else -1, rng.randint(0, 2), rng.randint(0, 4))
 
     @reg("set_tag", 2, "traverse")
     def _(P, i, t):
@@ -631,13 +655,15 @@ def explore(pid, budget_s=30.0, seed=0, repo_root="/repo", only=None, max_len=6,
         for nm, (_f, _a, g) in OPS.items():
             if g in groups:
                 weights.setdefault(nm, 1.0)
-        weights.update({"new_edge": 9.0, "link_from_to": 2.0, "traverse": 5.0, "search": 5.0, "u_add_vertex": 3.0, "set_tag": 1.5})
+        weights.update({"new_edge": 9.0, "link_from_to": 2.0, "traverse": 5.0, "search": 5.0, "u_add_vertex": 3.0, "set_tag": 1.5, "scenario": 0.0})
     hist = []
     sysq = []
     if focus:
         allsys = systematic_histories(groups, reach, focus)
         random.Random(1234).shuffle(allsys)
         sysq = allsys[worker::max(1, nworkers)][:1500]
+    if "traverse" in groups:
+        sysq = [[("scenario", sd)] for sd in range(seed * 100000 + worker, seed * 100000 + 40000, max(1, nworkers))][::-1]
     while time.time() - t0 < budget_s:
         if sysq and n % 2 == 0:
             hist = sysq.pop()
